@@ -160,11 +160,17 @@ Definition run_field (x : (bool * Z) * Z * Z * list (Z * bool * Z) * list (Z * Z
 Definition run_field_eqb : (list N * list N) -> (list N * list N) -> bool :=
   pair_eqb (list_eqb N.eqb) (list_eqb N.eqb).
 
-(* ---- a module: the front end looks at every enum before the back end does ---- *)
-Definition run_module (l : list enum_in) : N * bool * list enum_out :=
+(* ---- a module: the front end looks at every enum before the back end does; the back end
+   verifies EVERY enum_case attribute where it is written (header_generator._verify_attribute_values
+   traverses all Attribute nodes), also a $default that every value overrides ---- *)
+Definition attribute_ok (a : string) : bool := match verify_cases a with [] => true | _ => false end.
+
+Definition run_module (x : list string * list enum_in) : N * bool * list enum_out :=
+  let '(written, l) := x in
   let outs := map run_enum l in
   let status := (if existsb (fun o => N.eqb (eo_status o) 1) outs then 1
-                 else if existsb (fun o => N.eqb (eo_status o) 2) outs then 2 else 0)%N in
+                 else if negb (forallb attribute_ok written) || existsb (fun o => N.eqb (eo_status o) 2) outs then 2
+                 else 0)%N in
   let compiles := forallb eo_distinct outs in
   if N.eqb status 0 then (status, compiles, if compiles then outs else []) else (status, true, []).
 
